@@ -341,6 +341,12 @@ func (i *interpreter) bindBasic(fr *frame, raw value, dst types.Type, u *types.B
 			f = x
 		case float32:
 			f = float64(x)
+		case sym:
+			if x.t.srt == 0 {
+				return fail()
+			}
+			// floats are concrete in the engine: the integer is fixed to its value under the current model
+			f = float64(i.concIntVal(x))
 		default:
 			return fail()
 		}
